@@ -20,17 +20,24 @@
 
 static void on_listener(uint32_t seq, uint32_t payload);
 struct Cb { uint32_t id; explicit Cb(uint32_t i) : id(i) {} void operator()(uint32_t seq, uint32_t payload) const { on_listener(seq, payload); } };
+#ifdef HETER
+// the heterogeneous queue has its own copies of enqueue / process / processOne / processIf / clearEvents / wait / DisableQueueNotify
+struct Pol { using Threading = VThreading; };
+using Q = eventpp::HeterEventQueue<int, eventpp::HeterTuple<void(uint32_t, uint32_t), void(uint32_t)>, Pol>;
+#else
 struct Pol { using Threading = VThreading; using Callback = Cb; };
 using Q = eventpp::EventQueue<int, void(uint32_t, uint32_t), Pol>;
+#endif
 
 enum QOp { Q_ENQUEUE, Q_PROCESS, Q_PROCESS_ONE, Q_PROCESS_IF, Q_PROCESS_UNTIL, Q_TAKE, Q_PEEK, Q_CLEAR, Q_COUNT };
 
-struct Evt { int producer; int enqCall, enqRet; int dispatched; int taken; int consumer; int consumedAt; int dispStart; int consumeCall; };
-struct Peek { uint32_t seq; int tret; };
+struct Evt { int producer; int enqCall, enqRet; int dispatched; int taken; int consumer; int consumedAt; int dispStart; int consumeCall; int declined; };
+struct Peek { uint32_t seq; int tcall; int tret; int thread; };
+struct OpRec { int kind; int thread; int call; int ret; };
 struct Log { uint32_t seq[MAXLOG]; int n; };
 struct G {
 	Q * q; int clock; Evt ev[MAXE]; int nev; int ops[4][4]; int idx[4]; Log consumed[5];
-	int clearCall[8], clearRet[8]; int nclear; int opCall[5]; Peek peeks[8]; int npeek;
+	int clearCall[8], clearRet[8]; int nclear; int opCall[5]; Peek peeks[8]; int npeek; OpRec oplog[16]; int nops;
 	// MODE 11
 	int obsCall, obsRet, obsResult, obsKind;
 	// MODE 7
@@ -59,12 +66,13 @@ static void on_listener(uint32_t seq, uint32_t payload)
 static void do_enqueue(int me)
 {
 	int seq = g->nev++;
-	Evt & e = g->ev[seq]; e.producer = me; e.dispatched = 0; e.taken = 0; e.consumer = -1; e.consumedAt = 0; e.dispStart = 0; e.consumeCall = 0;
+	Evt & e = g->ev[seq]; e.producer = me; e.dispatched = 0; e.taken = 0; e.consumer = -1; e.consumedAt = 0; e.dispStart = 0; e.consumeCall = 0; e.declined = 0;
 	g->enqStarted++;
 	e.enqCall = g->clock++;
 	g->q->enqueue(EV, (uint32_t)seq, payload_of((uint32_t)seq));
 	e.enqRet = g->clock++;
 }
+#ifndef HETER
 static void do_take(int me)
 {
 	Q::QueuedEvent qe; int t0 = g->clock++;
@@ -76,14 +84,19 @@ static void do_take(int me)
 		Log & l = g->consumed[me]; if(l.n < MAXLOG) l.seq[l.n] = seq; l.n++;
 	}
 }
+#endif
 static void do_op(int me, int op)
 {
 	g->opCall[me] = g->clock++;
+	int rec = g->nops < 16 ? g->nops++ : 15;
+	g->oplog[rec].kind = op; g->oplog[rec].thread = me; g->oplog[rec].call = g->opCall[me]; g->oplog[rec].ret = 0;
 	switch(op) {
 	case Q_ENQUEUE: do_enqueue(me); break;
 	case Q_PROCESS: g->q->process(); break;
 	case Q_PROCESS_ONE: g->q->processOne(); break;
-	case Q_PROCESS_IF: g->q->processIf([](uint32_t seq, uint32_t) { return (seq & 1u) == 0; }); break;
+	// a predicate that declines an event lets later events overtake it: recorded, the FIFO oracle allows exactly that
+	case Q_PROCESS_IF: g->q->processIf([](uint32_t seq, uint32_t) { bool acc = (seq & 1u) == 0; if(! acc && seq < MAXE) g->ev[seq].declined = 1; return acc; }); break;
+#ifndef HETER
 	case Q_PROCESS_UNTIL: g->q->processUntil([](uint32_t seq, uint32_t) { return (seq & 1u) != 0; }); break;
 	case Q_TAKE: do_take(me); break;
 	case Q_PEEK: {
@@ -92,12 +105,13 @@ static void do_op(int me, int op)
 			int t1 = g->clock++;
 			uint32_t seq = std::get<0>(qe.arguments);
 			vf_assert(seq < (uint32_t)g->nev && std::get<1>(qe.arguments) == payload_of(seq) && qe.event == EV, 326);
-			if(g->npeek < 8) { g->peeks[g->npeek].seq = seq; g->peeks[g->npeek].tret = t1; g->npeek++; }     // judged after the join, when every record is complete
-			(void)t0;
+			if(g->npeek < 8) { g->peeks[g->npeek].seq = seq; g->peeks[g->npeek].tcall = t0; g->peeks[g->npeek].tret = t1; g->peeks[g->npeek].thread = me; g->npeek++; }     // judged after the join, when every record is complete
 		}
 		break; }
+#endif
 	default: { int i = g->nclear++; g->clearCall[i] = g->clock++; g->q->clearEvents(); g->clearRet[i] = g->clock++; break; }
 	}
+	g->oplog[rec].ret = g->clock++;
 }
 
 enum { COV_CONCURRENT_ENQ_PROCESS = 0, COV_TAKE_HIT, COV_PUTBACK, COV_OBS_TRUE, COV_OBS_FALSE_DURING_DISPATCH, COV_WAITER_BLOCKED_AND_WOKEN, COV_SCOPE_WITH_PENDING, COV_TIMEOUT, COV_N };
@@ -114,20 +128,28 @@ static void final_checks(bool drained)
 		if(e.taken) vf_cover(COV_TAKE_HIT);
 	}
 	// a peeked event was at the front at some moment of the peek call: everything enqueued before it had left the queue by then,
-	// i.e. was consumed by a call that had started before the peek returned (or a clearEvents had started)
+	// i.e. was consumed by a call that had started before the peek returned (or a clearEvents had started) -- or was, at that moment, in the
+	// hands of a processing call of another thread (process / processIf / processUntil take the pending events out of the queue while they
+	// work and put back what they do not dispatch): then nothing is demanded
 	for(int k = 0; k < g->npeek; k++) {
 		uint32_t s = g->peeks[k].seq; int t1 = g->peeks[k].tret;
+		bool overlapped = false;
+		for(int o = 0; o < g->nops && o < 16; o++) {
+			const OpRec & r = g->oplog[o];
+			if(r.thread != g->peeks[k].thread && (r.kind == Q_PROCESS || r.kind == Q_PROCESS_ONE || r.kind == Q_PROCESS_IF || r.kind == Q_PROCESS_UNTIL) && r.call < t1 && (r.ret == 0 || r.ret > g->peeks[k].tcall)) overlapped = true;
+		}
+		if(overlapped) continue;
 		for(int r = 0; r < g->nev; r++) if(g->ev[r].enqRet != 0 && g->ev[r].enqRet < g->ev[s].enqCall) {
 			bool gone = (g->ev[r].dispatched + g->ev[r].taken >= 1) && g->ev[r].consumeCall != 0 && g->ev[r].consumeCall < t1;
 			bool cleared = false; for(int c = 0; c < g->nclear; c++) if(g->clearCall[c] < t1) cleared = true;
 			vf_assert(gone || cleared, 327);
 		}
 	}
-	// FIFO per (producer, consumer) pair
+	// FIFO per (producer, consumer) pair; an event a processIf predicate declined may be overtaken (that is what declining means)
 	for(int c = 0; c < 5; c++) {
 		Log & l = g->consumed[c];
 		for(int i = 0; i < l.n && i < MAXLOG; i++) for(int j = i + 1; j < l.n && j < MAXLOG; j++) {
-			if(g->ev[l.seq[i]].producer == g->ev[l.seq[j]].producer) vf_assert(l.seq[i] < l.seq[j], 332);
+			if(g->ev[l.seq[i]].producer == g->ev[l.seq[j]].producer) vf_assert(l.seq[i] < l.seq[j] || g->ev[l.seq[j]].declined, 332);
 		}
 	}
 }
@@ -155,7 +177,11 @@ extern "C" void harness()
 #ifndef OPSET
 #define OPSET 0
 #endif
-#if OPSET == 1
+#if OPSET == 4
+	static const int opset[] = { Q_ENQUEUE, Q_PROCESS, Q_PROCESS_ONE, Q_PROCESS_IF, Q_CLEAR };          // what the heterogeneous queue offers
+#elif OPSET == 5
+	static const int opset[] = { Q_ENQUEUE, Q_PROCESS, Q_PROCESS_ONE };
+#elif OPSET == 1
 	static const int opset[] = { Q_ENQUEUE, Q_PROCESS, Q_PROCESS_ONE, Q_TAKE };
 #elif OPSET == 2
 	static const int opset[] = { Q_ENQUEUE, Q_PROCESS_IF, Q_PROCESS_UNTIL, Q_TAKE, Q_CLEAR };
